@@ -84,6 +84,28 @@ Definition hash_input_v5 (o : signed_object) (trailer : list N) : list N :=
 
 Definition left16 (hash : list N) : list N := firstn 2 hash.
 
+(* every line feed is preceded by a carriage return ([last] = the octet before the text) *)
+Fixpoint crlf_okb (last : N) (d : list N) : bool :=
+  match d with
+  | [] => true
+  | c :: r => (negb (c =? 10) || (last =? 13)) && crlf_okb c r
+  end.
+Definition canonical_text (d : list N) : bool := crlf_okb 33 d.
+
+(* what TMCG_OpenPGP_Signature::VerifyData hashes for a document signature of the given version (:505-860):
+   version 3: type and creation time; version 4: the hashed part of the packet; version 5: the hashed part followed by
+   six octets of literal-data metadata -- zeros for a detached signature, format / file name / date otherwise *)
+Definition v5_meta_detached : list N := repeat 0 6.
+Definition v5_meta_literal (format : N) (filename : list N) (time : N) : list N := format :: len filename :: filename ++ be4 time.
+
+Definition verify_hash_input (version type pkalgo hashalgo : N) (hspd : list N) (creation : N) (meta : list N)
+    (text : bool) (data : list N) : option (list N) :=
+  let o := if text then SoText data else SoBinary data in
+  if version =? 3 then Some (hash_input_v3 o (sig_trailer_v3 type creation))
+  else if version =? 4 then Some (hash_input_v4 o (sig_trailer_v4 type pkalgo hashalgo hspd))
+  else if version =? 5 then Some (hash_input_v5 o (sig_trailer_v5 type pkalgo hashalgo hspd meta))
+  else None.
+
 (* ------------------------------------------------------------------------------------------------ *)
 (* Validity rules (TMCG_OpenPGP_Signature::CheckValidity, :389-437) and integrity (:439-500)          *)
 (* ------------------------------------------------------------------------------------------------ *)
